@@ -1547,6 +1547,9 @@ class Interp(object):
                 return self.builtin(callee.kind[5:], args, kwargs, node, frame)
             self.path.unknown.append(text)
             return Top('call')
+        if callee is None or (isinstance(callee, (bool, int, float, str, bytes, list, dict)) and not isinstance(callee, tuple)):
+            # calling a concrete value that is not callable ('NoneType' object is not callable, ...)
+            raise Raise('TypeError', node, self.where(node, frame))
         self.path.unknown.append(text)
         return Top('call')
 
@@ -1563,6 +1566,9 @@ class Interp(object):
             if isinstance(a, Deque):
                 a = a.items
             if isinstance(a, (list, tuple)):
+                ml = kwargs.get('maxlen', args[1] if len(args) > 1 else None)
+                if isinstance(ml, int) and not isinstance(ml, bool):
+                    a = list(a)[len(a) - ml:] if ml else []
                 return Deque(a)
             return Top('deque')
         if qual.startswith('math.') and not kwargs and all(isinstance(a, (int, float)) and not isinstance(a, bool) for a in args):
@@ -2123,7 +2129,15 @@ class Interp(object):
         if name in ('map', 'filter') and len(args) == 2 and isinstance(a0, FuncRef) and isinstance(args[1], (list, tuple)):
             out = []
             for x in args[1]:
-                r = self.apply(norm(node.func), a0, [x], {}, node, frame)
+                try:
+                    r = self.apply(norm(node.func), a0, [x], {}, node, frame)
+                except Raise as e:
+                    if e.cls == 'StopIteration':
+                        # a StopIteration raised inside the mapped function leaves map.__next__ as it is and the consumer takes it for
+                        # the end of the iterator: the rest is silently dropped (the result is consumed at once in this model)
+                        self.event('map-ended-by-StopIteration', norm(node))
+                        break
+                    raise
                 if name == 'map':
                     out.append(r)
                 else:
